@@ -430,6 +430,13 @@ def sympy_ev(e, env, salt: int = 0, funcs=None) -> Fraction:
         if isinstance(e, sympy.frac):
             a = go(e.args[0])
             return a - ffloor(a)
+        if isinstance(e, (sympy.re, sympy.conjugate)):
+            return go(e.args[0])          # every quantity here is real
+        if isinstance(e, sympy.im):
+            return Fraction(0)
+        if isinstance(e, sympy.sign):
+            v = go(e.args[0])
+            return Fraction((v > 0) - (v < 0))
         if isinstance(e, (sympy.Sum, sympy.Product)):
             body, lim = e.args[0], e.args[1]
             if len(e.args) != 2 or len(lim) != 3:
